@@ -1,4 +1,568 @@
 package main
 
-func runE3(prop string, cfg *propCfg, tier string, seed uint64) int { die2("E3 not built yet"); return 2 }
-func replayE3(path string, jb []byte) int                             { die2("E3 not built yet"); return 2 }
+// Engine E3: crash injector. Every file-system-affecting system call of a real saveFailFile is a crash point:
+// the child is SIGKILLed by strace on entry to that call, then the surviving directory is judged.
+
+import (
+	"encoding/json"
+	"fmt"
+	"os"
+	"os/exec"
+	"path/filepath"
+	"regexp"
+	"sort"
+	"strconv"
+	"strings"
+	"sync"
+	"time"
+)
+
+type E3Workload struct {
+	Name     string `json:"name"`
+	Lines    int    `json:"lines"`
+	LineLen  int    `json:"line_len"`
+	Words    int    `json:"words"`
+	Seed     uint64 `json:"seed"`
+	FailKind int    `json:"fail_kind"`
+	PreState string `json:"pre_state"` // "empty", "dir-exists", "older-file"
+}
+
+type E3Report struct {
+	Verdict       string   `json:"verdict"`
+	AfterTests    int      `json:"after_tests"`
+	FailFilePhase int      `json:"failfile_invocations"`
+	RandomCases   int      `json:"random_cases"`
+	FirstDraws    string   `json:"first_draws"`
+	FirstBuf      []uint64 `json:"first_buf"`
+	IgnoredLogs   []string `json:"ignored_logs"`
+	TBFailed      bool     `json:"tb_failed"`
+	Escaped       string   `json:"escaped"`
+	FailFileNamed string   `json:"fail_file_named"`
+	FinalBuf      []uint64 `json:"final_buf"`
+	FinalDraws    string   `json:"final_draws"`
+}
+
+const e3TraceSet = "mkdir,mkdirat,open,openat,creat,write,pwrite64,writev,close,rename,renameat,renameat2,unlink,unlinkat,rmdir,link,linkat,symlink,symlinkat,fsync,fdatasync,ftruncate,truncate"
+
+type fsCall struct {
+	Name    string
+	Ordinal int    // n-th call of this syscall name on the main thread since process start
+	Text    string // trace line (args), for humans
+}
+
+var reTraceLine = regexp.MustCompile(`^(\d+)\s+(.*)$`)
+var reSyscall = regexp.MustCompile(`^([a-z0-9_]+)\((.*)$`)
+var reResumed = regexp.MustCompile(`^<\.\.\. ([a-z0-9_]+) resumed>(.*)$`)
+
+// parseTrace returns the FS-affecting calls under testdata/ made by the root process' main thread, in order,
+// and whether that thread was killed by SIGKILL.
+func parseTrace(path string) (calls []fsCall, killed bool, rootPid string, err error) {
+	b, err := os.ReadFile(path)
+	if err != nil {
+		return nil, false, "", err
+	}
+	counts := map[string]int{}
+	for _, line := range strings.Split(string(b), "\n") {
+		m := reTraceLine.FindStringSubmatch(line)
+		if m == nil {
+			continue
+		}
+		pid, rest := m[1], m[2]
+		if rootPid == "" {
+			rootPid = pid
+		}
+		if pid != rootPid {
+			continue
+		}
+		if strings.HasPrefix(rest, "+++ killed by SIGKILL") {
+			killed = true
+			continue
+		}
+		if reResumed.MatchString(rest) {
+			continue // counted at the unfinished (entry) line
+		}
+		sm := reSyscall.FindStringSubmatch(rest)
+		if sm == nil {
+			continue
+		}
+		name, args := sm[1], sm[2]
+		counts[name]++
+		if !strings.Contains(args, "testdata") {
+			continue
+		}
+		switch name {
+		case "open", "openat", "creat":
+			if !strings.Contains(args, "O_CREAT") && name != "creat" {
+				continue
+			}
+		case "close", "write", "pwrite64", "writev", "fsync", "fdatasync", "ftruncate":
+			// fd annotated with its path by -y
+		}
+		calls = append(calls, fsCall{Name: name, Ordinal: counts[name], Text: trimTo(rest, 160)})
+	}
+	return calls, killed, rootPid, nil
+}
+
+func trimTo(s string, n int) string {
+	if len(s) > n {
+		return s[:n] + "…"
+	}
+	return s
+}
+
+var reLogTS = regexp.MustCompile(`\d{4}/\d\d/\d\d \d\d:\d\d:\d\d\.\d{6}`)
+
+func normFailFile(b []byte) string { return reLogTS.ReplaceAllString(string(b), "TS") }
+
+type e3Violation struct {
+	Rule, Sig, Msg string
+	Workload       E3Workload
+	Point          int
+	Call           fsCall
+}
+
+type e3Result struct {
+	Workload   E3Workload
+	Points     int
+	Killed     int
+	Discarded  int // injected runs whose trace prefix did not match the baseline (harness error, discarded)
+	CallKinds  map[string]int
+	Viols      []e3Violation
+	Harness    string
+	SampleCalls []string
+	States     map[string]int // post-crash state classes
+}
+
+func (b *build) e3Child(dir, mode string, wl E3Workload, out string, straceArgs []string, tracePath string) (int, string) {
+	wj, _ := json.Marshal(wl)
+	var cmd *exec.Cmd
+	if straceArgs != nil {
+		args := append([]string{"-f", "-qq", "-y", "-s", "64", "-o", tracePath, "-e", "trace=" + e3TraceSet}, straceArgs...)
+		args = append(args, "--", b.worker, "-test.run", "^$")
+		cmd = exec.Command("strace", args...)
+	} else {
+		cmd = exec.Command(b.worker, "-test.run", "^$")
+	}
+	cmd.Dir = dir
+	cmd.Env = append(os.Environ(), "VERIF_E3="+mode, "VERIF_E3_WORKLOAD="+string(wj), "VERIF_E3_OUT="+out, "GOMAXPROCS=2")
+	o, err := cmd.CombinedOutput()
+	code := 0
+	if err != nil {
+		code = -1
+		if ee, ok := err.(*exec.ExitError); ok {
+			code = ee.ExitCode()
+		}
+	}
+	return code, string(o)
+}
+
+func prepState(dir string, wl E3Workload, olderFrom string) error {
+	if err := os.MkdirAll(dir, 0o755); err != nil {
+		return err
+	}
+	switch wl.PreState {
+	case "dir-exists":
+		return os.MkdirAll(filepath.Join(dir, "testdata", "rapid"), 0o755)
+	}
+	return nil
+}
+
+func listFailFiles(dir string) []string {
+	var out []string
+	_ = filepath.Walk(filepath.Join(dir, "testdata"), func(p string, fi os.FileInfo, err error) error {
+		if err == nil && fi.Mode().IsRegular() && strings.HasSuffix(p, ".fail") {
+			out = append(out, p)
+		}
+		return nil
+	})
+	sort.Strings(out)
+	return out
+}
+
+func listAllFiles(dir string) []string {
+	var out []string
+	_ = filepath.Walk(filepath.Join(dir, "testdata"), func(p string, fi os.FileInfo, err error) error {
+		if err == nil && !fi.IsDir() {
+			rel, _ := filepath.Rel(dir, p)
+			out = append(out, fmt.Sprintf("%s(%d)", rel, fi.Size()))
+		}
+		return nil
+	})
+	return out
+}
+
+func readReport(path string) (*E3Report, error) {
+	b, err := os.ReadFile(path)
+	if err != nil {
+		return nil, err
+	}
+	var r E3Report
+	if err := json.Unmarshal(b, &r); err != nil {
+		return nil, err
+	}
+	return &r, nil
+}
+
+func sameBuf(a, b []uint64) bool {
+	if len(a) != len(b) {
+		return false
+	}
+	for i := range a {
+		if a[i] != b[i] {
+			return false
+		}
+	}
+	return true
+}
+
+// e3RunWorkload: baseline, then every crash point (or only `only` if >= 0).
+func (b *build) e3RunWorkload(wl E3Workload, root string, only int) *e3Result {
+	res := &e3Result{Workload: wl, CallKinds: map[string]int{}, States: map[string]int{}}
+	base := filepath.Join(root, "base")
+	if err := prepState(base, wl, ""); err != nil {
+		res.Harness = err.Error()
+		return res
+	}
+	baseTrace := filepath.Join(root, "base.trace")
+	code, out := b.e3Child(base, "save", wl, filepath.Join(root, "base.report"), []string{}, baseTrace)
+	if code != 0 {
+		res.Harness = fmt.Sprintf("baseline child exit %d: %s", code, trimTo(out, 600))
+		return res
+	}
+	rep, err := readReport(filepath.Join(root, "base.report"))
+	if err != nil || (rep.Verdict != "fail" && rep.Verdict != "panic") {
+		res.Harness = fmt.Sprintf("baseline did not fail as planned: %v %+v", err, rep)
+		return res
+	}
+	calls, _, _, err := parseTrace(baseTrace)
+	if err != nil {
+		res.Harness = err.Error()
+		return res
+	}
+	refFiles := listFailFiles(base)
+	if len(refFiles) != 1 {
+		// no file saved by an uninterrupted run: C06's business; nothing to compare crash states with
+		res.Harness = fmt.Sprintf("baseline saved %d fail files (%v); calls=%d", len(refFiles), listAllFiles(base), len(calls))
+		return res
+	}
+	refBytes, _ := os.ReadFile(refFiles[0])
+	ref := normFailFile(refBytes)
+	for _, c := range calls {
+		res.CallKinds[c.Name]++
+	}
+	for i, c := range calls {
+		if i < 6 || i >= len(calls)-4 {
+			res.SampleCalls = append(res.SampleCalls, fmt.Sprintf("#%d %s[%d] %s", i, c.Name, c.Ordinal, trimTo(c.Text, 110)))
+		}
+	}
+	// reference rerun (J2 on the uninterrupted save): must be a complete replay
+	code, out = b.e3Child(base, "rerun", wl, filepath.Join(root, "base.rerun"), nil, "")
+	rr, err := readReport(filepath.Join(root, "base.rerun"))
+	if code != 0 || err != nil {
+		res.Harness = fmt.Sprintf("reference rerun failed: %d %v %s", code, err, trimTo(out, 400))
+		return res
+	}
+	if rr.FailFilePhase == 0 || !sameBuf(rr.FirstBuf, rep.FinalBuf) {
+		res.Viols = append(res.Viols, e3Violation{Rule: "C16.J2", Sig: "uninterrupted-save-not-replayed", Msg: fmt.Sprintf("a later run did not replay the uninterrupted save (fail-file invocations=%d, logs=%v)", rr.FailFilePhase, rr.IgnoredLogs), Workload: wl, Point: len(calls)})
+		return res
+	}
+
+	points := make([]int, 0, len(calls))
+	for k := range calls {
+		if only < 0 || only == k {
+			points = append(points, k)
+		}
+	}
+	res.Points = len(points)
+	var mu sync.Mutex
+	var wg sync.WaitGroup
+	sem := make(chan struct{}, 4)
+	for _, k := range points {
+		wg.Add(1)
+		sem <- struct{}{}
+		go func(k int) {
+			defer wg.Done()
+			defer func() { <-sem }()
+			c := calls[k]
+			dir := filepath.Join(root, fmt.Sprintf("p%d", k))
+			_ = prepState(dir, wl, "")
+			tr := filepath.Join(root, fmt.Sprintf("p%d.trace", k))
+			inj := fmt.Sprintf("inject=%s:signal=SIGKILL:when=%d", c.Name, c.Ordinal)
+			b.e3Child(dir, "save", wl, filepath.Join(root, fmt.Sprintf("p%d.report", k)), []string{"-e", inj}, tr)
+			got, killed, _, err := parseTrace(tr)
+			mu.Lock()
+			defer mu.Unlock()
+			defer os.RemoveAll(dir)
+			defer os.Remove(tr)
+			// the injected run must have followed the baseline up to and including the entry of call k, and died there
+			okPrefix := err == nil && killed && len(got) == k+1
+			if okPrefix {
+				for i := 0; i <= k; i++ {
+					if got[i].Name != calls[i].Name || got[i].Ordinal != calls[i].Ordinal {
+						okPrefix = false
+					}
+				}
+			}
+			if !okPrefix {
+				res.Discarded++
+				return
+			}
+			res.Killed++
+			// J1: every *.fail file is complete and identical (up to timestamps) to the uninterrupted save
+			ff := listFailFiles(dir)
+			state := "no-fail-file"
+			for _, f := range ff {
+				fb, _ := os.ReadFile(f)
+				if normFailFile(fb) != ref {
+					rel, _ := filepath.Rel(dir, f)
+					res.Viols = append(res.Viols, e3Violation{Rule: "C16.J1", Sig: "partial-file-under-fail-name", Workload: wl, Point: k, Call: c,
+						Msg: fmt.Sprintf("killed before call #%d (%s[%d] %s): %s has %d bytes, the uninterrupted save has %d; directory: %v", k, c.Name, c.Ordinal, trimTo(c.Text, 80), rel, len(fb), len(refBytes), listAllFiles(dir))})
+					return
+				}
+				state = "complete-fail-file"
+			}
+			all := listAllFiles(dir)
+			if len(ff) == 0 && len(all) > 0 {
+				state = "temp-leftover-only"
+			}
+			res.States[state]++
+			// J2: a fresh process either behaves as if no fail file existed or replays the complete case
+			outp := filepath.Join(root, fmt.Sprintf("p%d.rerun", k))
+			code, o := b.e3Child(dir, "rerun", wl, outp, nil, "")
+			r2, err := readReport(outp)
+			os.Remove(outp)
+			if code != 0 || err != nil {
+				res.Viols = append(res.Viols, e3Violation{Rule: "C16.J2", Sig: "rerun-crashed", Workload: wl, Point: k, Call: c, Msg: fmt.Sprintf("rerun after crash point #%d failed: exit %d %v %s", k, code, err, trimTo(o, 300))})
+				return
+			}
+			switch {
+			case r2.Escaped != "":
+				res.Viols = append(res.Viols, e3Violation{Rule: "C16.J2", Sig: "rerun-panicked", Workload: wl, Point: k, Call: c, Msg: "Check panicked after crash: " + r2.Escaped})
+			case len(r2.IgnoredLogs) > 0:
+				res.Viols = append(res.Viols, e3Violation{Rule: "C16.J2", Sig: "partial-file-picked-up", Workload: wl, Point: k, Call: c,
+					Msg: fmt.Sprintf("killed before call #%d (%s[%d]): the next run picked up an unusable file: %v; directory: %v", k, c.Name, c.Ordinal, r2.IgnoredLogs, all)})
+			case r2.FailFilePhase == 0:
+				if len(ff) > 0 {
+					res.Viols = append(res.Viols, e3Violation{Rule: "C16.J2", Sig: "complete-file-not-replayed", Workload: wl, Point: k, Call: c, Msg: fmt.Sprintf("a complete fail file exists after crash point #%d but the next run did not replay it", k)})
+				}
+			default:
+				if !sameBuf(r2.FirstBuf, rep.FinalBuf) || r2.AfterTests != 0 {
+					res.Viols = append(res.Viols, e3Violation{Rule: "C16.J2", Sig: "other-case-replayed", Workload: wl, Point: k, Call: c,
+						Msg: fmt.Sprintf("killed before call #%d (%s[%d]): the next run replayed %d words (after %d tests), the uninterrupted save holds %d words; directory: %v", k, c.Name, c.Ordinal, len(r2.FirstBuf), r2.AfterTests, len(rep.FinalBuf), all)})
+				}
+			}
+		}(k)
+	}
+	wg.Wait()
+	return res
+}
+
+func e3GenWorkload(seed uint64, idx int, tier string) E3Workload {
+	x := seed*0x9e3779b97f4a7c15 + uint64(idx)*0xbf58476d1ce4e5b9 + 12345
+	next := func(n int) int {
+		x ^= x << 13
+		x ^= x >> 7
+		x ^= x << 17
+		return int(x % uint64(n))
+	}
+	names := []string{"TestCrash", "TestCrash/sub case", "Тест/日本", "CON", "Test:Crash*"}
+	maxLines := 12
+	if tier == "thorough" {
+		maxLines = 200
+	}
+	lines := []int{0, 1, 3}[idx%3]
+	if idx >= 3 {
+		lines = next(maxLines + 1)
+	}
+	kinds := []int{1, 6, 4, 10} // Fatalf, panic(string), Errorf, nil-map-write
+	return E3Workload{Name: names[next(len(names))], Lines: lines, LineLen: 1 + next(200), Words: []int{0, 1, 8, 64}[next(4)], Seed: 1 + uint64(next(1<<30)),
+		FailKind: kinds[next(len(kinds))], PreState: []string{"empty", "dir-exists"}[next(2)]}
+}
+
+type e3Replay struct {
+	Property string     `json:"property"`
+	Rule     string     `json:"rule"`
+	Sig      string     `json:"sig"`
+	Msg      string     `json:"msg"`
+	Workload E3Workload `json:"workload"`
+	Point    int        `json:"crash_point"`
+	Call     fsCall     `json:"call"`
+	TreeHash string     `json:"tree_hash"`
+	Trace    []string   `json:"trace"`
+}
+
+func runE3(prop string, cfg *propCfg, tier string, seed uint64) int {
+	start := time.Now()
+	if _, err := exec.LookPath("strace"); err != nil {
+		die2("strace not available: %v", err)
+	}
+	b := doBuild(cfg, prop)
+	defer b.cleanup()
+	buildS := time.Since(start).Seconds()
+	n := cfg.QuickRuns
+	budget := 0.0
+	if tier == "thorough" {
+		n = cfg.ThoroughMax
+		budget, _ = strconv.ParseFloat(envOr("VERIF_BUDGET_S", "600"), 64)
+	}
+	var mu sync.Mutex
+	var results []*e3Result
+	var wg sync.WaitGroup
+	sem := make(chan struct{}, 4)
+	for i := 0; i < n; i++ {
+		if budget > 0 && time.Since(start).Seconds() > budget {
+			break
+		}
+		wg.Add(1)
+		sem <- struct{}{}
+		go func(i int) {
+			defer wg.Done()
+			defer func() { <-sem }()
+			wl := e3GenWorkload(seed, i, tier)
+			root := filepath.Join(b.root, fmt.Sprintf("e3-%d", i))
+			_ = os.MkdirAll(root, 0o755)
+			r := b.e3RunWorkload(wl, root, -1)
+			os.RemoveAll(root)
+			mu.Lock()
+			results = append(results, r)
+			mu.Unlock()
+		}(i)
+	}
+	wg.Wait()
+	searchS := time.Since(start).Seconds() - buildS
+
+	findings := loadFindings()
+	points, killed, discarded := 0, 0, 0
+	kinds := map[string]int{}
+	states := map[string]int{}
+	var samples []any
+	var harness []string
+	var viols []e3Violation
+	nontriv := 0
+	for _, r := range results {
+		if r.Harness != "" {
+			harness = append(harness, r.Harness)
+			continue
+		}
+		points += r.Points
+		killed += r.Killed
+		discarded += r.Discarded
+		if r.Killed > 0 {
+			nontriv++
+		}
+		for k, v := range r.CallKinds {
+			kinds[k] += v
+		}
+		for k, v := range r.States {
+			states[k] += v
+		}
+		if len(samples) < 3 {
+			samples = append(samples, map[string]any{"workload": r.Workload, "crash_points": r.Points, "calls": r.SampleCalls})
+		}
+		viols = append(viols, r.Viols...)
+	}
+	if len(harness) > 0 {
+		fmt.Fprintf(os.Stderr, "vcheck: E3 harness trouble in %d workloads (not a verdict): %s\n", len(harness), harness[0])
+		return 2
+	}
+	if points > 0 && discarded*5 > points {
+		fmt.Fprintf(os.Stderr, "vcheck: E3: %d of %d injected runs did not follow the baseline trace (harness trouble, not a verdict)\n", discarded, points)
+		return 2
+	}
+	exit := 0
+	seen := map[string]bool{}
+	known := map[string]int{}
+	var lines []string
+	for _, v := range viols {
+		key := v.Rule + "/" + v.Sig
+		if f := knownFor(findings, prop, Violation{Rule: v.Rule, Sig: v.Sig}); f != nil {
+			known[key]++
+			if known[key] == 1 {
+				fmt.Printf("KNOWN-FINDING: property=%s sig=%s %s\n", prop, key, f.Text)
+			}
+			continue
+		}
+		if seen[key] {
+			continue
+		}
+		seen[key] = true
+		// confirm in a fresh build-independent replay of that single crash point
+		root := filepath.Join(b.root, "confirm-"+sanitize(key))
+		_ = os.MkdirAll(root, 0o755)
+		r := b.e3RunWorkload(v.Workload, root, v.Point)
+		os.RemoveAll(root)
+		confirmed := false
+		for _, v2 := range r.Viols {
+			if v2.Rule == v.Rule && v2.Sig == v.Sig {
+				confirmed = true
+			}
+		}
+		if !confirmed {
+			fmt.Fprintf(os.Stderr, "vcheck: E3 violation %s did not reproduce (harness nondeterminism, not a verdict): %s\n", key, v.Msg)
+			return 2
+		}
+		rf := e3Replay{Property: prop, Rule: v.Rule, Sig: v.Sig, Msg: v.Msg, Workload: v.Workload, Point: v.Point, Call: v.Call, TreeHash: b.treeHash,
+			Trace: []string{fmt.Sprintf("workload %+v", v.Workload), fmt.Sprintf("SIGKILL on entry to FS call #%d of the save: %s[%d] %s", v.Point, v.Call.Name, v.Call.Ordinal, v.Call.Text), v.Msg}}
+		path := filepath.Join(verifDir, "replays", fmt.Sprintf("%s-%s-seed%d-p%d.json", prop, sanitize(key), seed, v.Point))
+		jb, _ := json.MarshalIndent(rf, "", " ")
+		_ = os.MkdirAll(filepath.Dir(path), 0o755)
+		_ = os.WriteFile(path, jb, 0o644)
+		fmt.Printf("violation %s: %s\n", key, v.Msg)
+		lines = append(lines, fmt.Sprintf("VIOLATION property=%s replay=%s", prop, path))
+		exit = 1
+	}
+	faults := map[string]int{"SIGKILL_at_fs_syscall_entry": killed}
+	for k, v := range kinds {
+		faults["crash_points."+k] = v
+	}
+	if len(samples) == 0 {
+		samples = append(samples, "no workload completed")
+	}
+	cov := map[string]any{
+		"evaluations": killed + len(results), "distinct_nontrivial": killed, "rule": cfg.Rule, "samples": samples,
+		"exhaustive": true, "explanation": "exhaustive per workload: every FS-affecting system call of the save (in the baseline strace of the same workload) is a crash point; workloads themselves are sampled",
+		"workloads": len(results), "workloads_with_kills": nontriv, "crash_points": points, "killed_children": killed, "discarded_injections": discarded,
+		"faults_fired": faults, "post_crash_states": states, "runs_per_hour": int(float64(killed) / searchS * 3600), "seeds_per_hour": int(float64(len(results)) / searchS * 3600),
+		"simulated_time_s": 0, "simulated_time_note": cfg.SimTimeNote, "known_findings_seen": known, "real_vs_stub": cfg.RealStub,
+		"build_s": buildS, "search_s": searchS, "tree_hash": b.treeHash, "engine": "E3",
+		"distinct_interleavings_note": "not applicable: single-threaded child; the explored dimension is the crash point",
+	}
+	ev := &evidence{PropertyID: prop, Tier: tier, Seed: int64(seed), Level: cfg.Level, Coverage: cov, WallS: time.Since(start).Seconds(), Violations: len(lines),
+		Assumptions: []string{"process death (SIGKILL) semantics: the kernel's view of the directory is the truth; power loss (lost un-synced pages) is not modelled",
+			"a torn single write is not injected (strace cannot split a call); it is dominated by the crash point before that write",
+			"strace 6.1 delivers the injected SIGKILL on syscall entry, before the kernel executes the call (validated: every injected run's trace must equal the baseline's prefix and end at the chosen call)"}}
+	writeEvidence(prop, ev)
+	for _, l := range lines {
+		fmt.Println(l)
+	}
+	fmt.Printf("%s %s: %d workloads, %d crash points, %d killed children (%d discarded), states %v, build %.1fs search %.1fs, violations(new)=%d\n", prop, tier, len(results), points, killed, discarded, states, buildS, searchS, len(lines))
+	return exit
+}
+
+func replayE3(path string, jb []byte) int {
+	var rf e3Replay
+	if err := json.Unmarshal(jb, &rf); err != nil {
+		die2("%v", err)
+	}
+	cfg := props[rf.Property]
+	b := doBuild(cfg, rf.Property)
+	defer b.cleanup()
+	root := filepath.Join(b.root, "replay")
+	_ = os.MkdirAll(root, 0o755)
+	r := b.e3RunWorkload(rf.Workload, root, rf.Point)
+	if r.Harness != "" {
+		die2("E3 replay harness trouble: %s", r.Harness)
+	}
+	for _, l := range rf.Trace {
+		fmt.Println(l)
+	}
+	for _, v := range r.Viols {
+		fmt.Printf("  rule %s sig %s: %s\n", v.Rule, v.Sig, v.Msg)
+		if v.Rule == rf.Rule && v.Sig == rf.Sig {
+			fmt.Printf("VIOLATION property=%s replay=%s\n", rf.Property, path)
+			return 1
+		}
+	}
+	fmt.Printf("replay of %s: violation %s/%s NOT reproduced on this tree (killed=%d discarded=%d)\n", path, rf.Rule, rf.Sig, r.Killed, r.Discarded)
+	return 0
+}
